@@ -1,6 +1,15 @@
 ----------------------------- MODULE Throttle_MC -----------------------------
 EXTENDS Throttle
-MCIv    == [x \in Callers |-> 2]
-MCIv123 == [x \in Callers |-> ((x - 1) % 3) + 1]
-view == <<last, now, seq, reqs, pc, cur, inv, loaded, est>>
+\* constant threshold 4 per statistic interval of 4 ticks: a batch of b owes b ticks (the configurations explored so far)
+MCTh4   == [x \in Callers |-> <<4, 1>>]
+MCBt2   == [x \in Callers |-> 2]
+MCBt123 == [x \in Callers |-> ((x - 1) % 3) + 1]
+\* the threshold differs from request to request (SI = 4 ticks)
+\*   V: thresholds 4, 2, 2, 1 with batches 1, 1, 2, 1        -> spacings 1, 2, 4, 4
+\*   W: thresholds 1, 4, 1/2, 2 with batches 1, 2, 1, 0      -> spacings 4, 2, (batch over threshold), (batch 0)
+MCThV   == [x \in Callers |-> <<<<4, 1>>, <<2, 1>>, <<2, 1>>, <<1, 1>>>>[((x - 1) % 4) + 1]]
+MCBtV   == [x \in Callers |-> <<1, 1, 2, 1>>[((x - 1) % 4) + 1]]
+MCThW   == [x \in Callers |-> <<<<1, 1>>, <<4, 1>>, <<1, 2>>, <<2, 1>>>>[((x - 1) % 4) + 1]]
+MCBtW   == [x \in Callers |-> <<1, 2, 1, 0>>[((x - 1) % 4) + 1]]
+view == <<last, now, seq, reqs, frozen, pc, cur, inv, loaded, est>>
 =============================================================================
